@@ -240,13 +240,22 @@ def _mec_case(draw):
         drop = draw(st.lists(st.sampled_from(edges), min_size=len(edges) - 10, max_size=len(edges) - 10, unique=True))
         for (i, j) in drop:
             A[i][j] = 0
+    if draw(st.booleans()):
+        small = draw(S.dag_pattern(3, 6, shapes=("random", "dense", "collider", "complete")))
+        es = [(i, j) for i in range(len(small)) for j in range(len(small)) if small[i][j]]
+        for (i, j) in es[10:]:
+            small[i][j] = 0
+        A = draw(S.embedded(small))
     var = draw(st.sampled_from([["int"], ["float"], ["weighted"], ["nochain"]]))
     return {"sub": "mec_hyp", "A": A, "variants": var, "salt": draw(st.integers(0, 7))}
 
 
 @st.composite
 def _alldags_case(draw):
-    P = draw(S.pdag(6, 8, max_undirected=9, weights=(4, 2, 2)))
+    if draw(st.booleans()):
+        P = draw(S.pdag(6, 8, max_undirected=9, weights=(4, 2, 2)))
+    else:      # a small, denser PDAG relabelled into 9..12 nodes (label-dependent code paths)
+        P = draw(S.embedded(draw(S.pdag(3, 6, max_undirected=8, weights=(2, 3, 3)))))
     return {"sub": "alldags_hyp", "P": P, "dtype": draw(st.sampled_from(["int", "float"])), "ice": draw(st.integers(0, 9)) == 0}
 
 
